@@ -4,6 +4,7 @@ package sim
 
 import (
 	"context"
+	"errors"
 	"fmt"
 	"net"
 	"os"
@@ -41,7 +42,35 @@ type Impl struct {
 }
 
 // ImplNames lists the implementations and wrappers of state.CoreState covered by S1 runs.
-var ImplNames = []string{"inmem", "namespaced", "backed-mem", "bolt", "filter", "cached", "grpc"}
+var ImplNames = []string{"inmem", "namespaced", "backed-mem", "backed-faulty", "bolt", "filter", "cached", "grpc"}
+
+// ErrFaultyBacking is returned by the backing store of the "backed-faulty" implementation for every fifth write.
+var ErrFaultyBacking = errors.New("injected backing store failure")
+
+// FaultyBacking is a MemBacking that rejects every Mod-th Put/Destroy (before applying it).
+type FaultyBacking struct {
+	*MemBacking
+	Mod int64
+	n   atomic.Int64
+}
+
+// Put implements inmem.BackingStore.
+func (b *FaultyBacking) Put(ctx context.Context, typ resource.Type, r resource.Resource) error {
+	if b.n.Add(1)%b.Mod == 0 {
+		return ErrFaultyBacking
+	}
+
+	return b.MemBacking.Put(ctx, typ, r)
+}
+
+// Destroy implements inmem.BackingStore.
+func (b *FaultyBacking) Destroy(ctx context.Context, typ resource.Type, p resource.Pointer) error {
+	if b.n.Add(1)%b.Mod == 0 {
+		return ErrFaultyBacking
+	}
+
+	return b.MemBacking.Destroy(ctx, typ, p)
+}
 
 // MemBacking is an in-memory inmem.BackingStore used as the simplest persistent-backed variant.
 type MemBacking struct {
@@ -158,6 +187,12 @@ func Build(name string) (*Impl, error) {
 	case "backed-mem":
 		st := namespaced.NewState(func(ns resource.Namespace) state.CoreState {
 			return inmem.NewStateWithOptions(inmem.WithBackingStore(NewMemBacking()))(ns)
+		})
+
+		return &Impl{State: st, Close: func() {}, MultiNS: true}, nil
+	case "backed-faulty":
+		st := namespaced.NewState(func(ns resource.Namespace) state.CoreState {
+			return inmem.NewStateWithOptions(inmem.WithBackingStore(&FaultyBacking{MemBacking: NewMemBacking(), Mod: 5}))(ns)
 		})
 
 		return &Impl{State: st, Close: func() {}, MultiNS: true}, nil
